@@ -44,7 +44,12 @@ def run_case(arg):
     s = np.array(case["s"], dtype=float)
     est = np.array(case["est"], dtype=float)     # principal-cell value from the model
     shape = a.shape
-    tag = f"shape={shape} shift={case['s']}"
+    # the estimate does not depend on the unit of the image intensities: the same pair is also handed over scaled by an
+    # exact power of two (values around 1e-7 and 1e6)
+    unit = (1.0, 2.0 ** -24, 2.0 ** 20)[(idx // 5) % 3]
+    a = a * unit
+    b = b * unit
+    tag = f"shape={shape} shift={case['s']} unit={unit:g}"
     ups = UPS if not quick else [1, 2, 3, 4, 16]
 
     def bad(key, msg):
@@ -66,10 +71,10 @@ def run_case(arg):
         r2, img = cross_correlation_shift(Fa, Fb, upsample_factor=u, fft_input=True, return_shifted_image=True)
         if not same_shift(r2, est, shape, 1e-6):
             bad("C13:numpy:fft-input", f"u={u}: returned {np.asarray(r2).tolist()}, applied {est.tolist()}")
-        elif not np.allclose(img, a, atol=1e-6):
+        elif not np.allclose(img, a, atol=1e-6 * unit, rtol=0):
             bad("C13:numpy:aligned-image", f"u={u}: aligned image differs from the reference by {np.abs(img - a).max():.3g}")
         r3, Fimg = cross_correlation_shift(a, b, upsample_factor=u, return_shifted_image=True, fft_output=True)
-        if same_shift(r3, est, shape, 1e-6) and not np.allclose(np.fft.ifft2(Fimg).real, a, atol=1e-6):
+        if same_shift(r3, est, shape, 1e-6) and not np.allclose(np.fft.ifft2(Fimg).real, a, atol=1e-6 * unit, rtol=0):
             bad("C13:numpy:aligned-image-fft-output", f"u={u}: Fourier-space aligned image differs from the reference")
         # max_shift larger than the applied shift does not change the answer
         # (tight and loose limits: the limit is a Euclidean distance in pixels, the same along rows and columns)
@@ -104,7 +109,7 @@ def run_case(arg):
             bad("C13:numpy:chain:repeat", f"u={u}: repeated registration of the same spectra gave {c1.tolist()} then {c4.tolist()}, applied {est.tolist()}")
         if not same_shift(c2, -est, shape, 1e-6):
             bad("C13:numpy:chain:swap", f"u={u}: swap on the same spectra gave {c2.tolist()}, expected {(-est).tolist()}")
-        if not same_shift(c3, [0, 0], shape, 1e-6) or not np.allclose(img3, a, atol=1e-6):
+        if not same_shift(c3, [0, 0], shape, 1e-6) or not np.allclose(img3, a, atol=1e-6 * unit, rtol=0):
             bad("C13:numpy:chain:identical", f"u={u}: identical spectra gave shift {np.asarray(c3).tolist()}, aligned image error {np.abs(img3 - a).max():.3g}")
         if not (np.array_equal(Fa, Fa0) and np.array_equal(Fb, Fb0) and np.array_equal(a, a0) and np.array_equal(b, b0)):
             bad("C13:numpy:inputs-modified", f"u={u}: the estimator modified its input arrays")
@@ -120,7 +125,7 @@ def run_case(arg):
                     bad("C13:numpy:options:shift", f"u={u} {opt}: returned {sh.tolist()}, applied {est.tolist()}")
                 elif rsi:
                     al = np.fft.ifft2(res[1]).real if fo else np.asarray(res[1])
-                    if al.shape != a.shape or not np.allclose(al, a, atol=1e-6):
+                    if al.shape != a.shape or not np.allclose(al, a, atol=1e-6 * unit, rtol=0):
                         bad("C13:numpy:options:aligned-image", f"u={u} {opt}: aligned image differs from the reference")
                 if not (np.array_equal(Fa, Fa0) and np.array_equal(Fb, Fb0) and np.array_equal(a, a0) and np.array_equal(b, b0)):
                     bad("C13:numpy:inputs-modified", f"u={u} {opt}: the estimator modified its input arrays")
